@@ -553,7 +553,7 @@ func shortTypes(tys []string) []string {
 func init() {
 	vc.Register(&vc.Check{
 		ID: "C10", Title: "Only relayer-proposer bridge/relayer messages and the block message can run", Level: "exploration",
-		Rule: "enumeration over the message types the application's interface registry lists at run time (one case per type; cases beyond the number of types repeat with other keys): for the type alone x signer {relayer proposer, another voter, a validator, unknown account} x memo {none, 1 byte} x timeout {none, last height, next height, later} x signature {valid, wrong key, wrong sequence, wrong chain id} (quick: signature variants only on the plain envelope), every ordered pair (type, other type) in one single-signer transaction, and two-signer transactions; " +
+		Rule: "enumeration over the message types the application's interface registry lists at run time (one case per type; cases beyond the number of types repeat with other keys): for the type alone x signer {relayer proposer, another voter, a validator, unknown account} x memo {none, 1 byte} x timeout {none, last height, next height, later} x signature {valid, wrong key, wrong sequence, wrong chain id} (quick: signature variants only on the plain envelope), every ordered pair (type, other type) in one single-signer transaction, two-signer transactions, and fee fields (a fee payer other than the signer = a second required signer, the signer as its own payer, a fee granter; five variants on the block message); " +
 			"each transaction goes through CheckTx(new), mempool selection by PrepareProposal, CheckTx(recheck), ProcessProposal behind an honest block message, and FinalizeBlock (forced); admitted = code 0 / selected / ACCEPT / account sequence advanced; oracle from the statement; after the forced block all store hashes (acc too, unless the door was passed) must equal a twin that executed the block without the transaction. Exhaustive over the listed axes for the registered types (thorough tier). Non-trivial = every transaction; distinct = (types, signer, memo, timeout, signature, verdict).",
 		Assume: []string{"messages are built generically: the signer field is set, all other fields are zero", "a timeout equal to the last committed height is not judged in check mode"},
 		Cases:  func(tier string) int { return map[string]int{"quick": 16, "thorough": 32}[tier] },
